@@ -1,11 +1,11 @@
 from engine.core import Job
 META = dict(
     level="other",
-    claim="Conditional-inclusion skipping and include search order on the real preprocess.c: skip_line returns the next line start (extra tokens ignored); skip_cond_incl stops exactly at the matching #elif/#else/#endif with nested conditionals skipped, for every token list of 4 tokens; search_include_paths returns the first existing candidate in directory order and positions #include_next after it, search_include_next continues from there, for every existence pattern over 4 directories.",
-    note="Bounded (4 tokens / 4 directories). Assumed: format() yields the i-th candidate path, file_exists is a pure predicate of an unchanging file system, the include memo table is empty (first lookup). Not covered: taken-branch bookkeeping in preprocess2, #if expression evaluation (see C07), include guard detection, -idirafter ordering in main.c.",
-    functions=["preprocess.c:skip_line", "preprocess.c:skip_cond_incl", "preprocess.c:skip_cond_incl2", "preprocess.c:is_hash", "preprocess.c:search_include_paths", "preprocess.c:search_include_next"],
+    claim="Conditional-inclusion skipping and include search order on the real preprocess.c: skip_line returns the next line start (extra tokens ignored); search_include_paths returns the first existing candidate in directory order and positions #include_next after it, search_include_next continues from there, for every existence pattern over 4 directories.",
+    note="Bounded (4 tokens / 4 directories); group skipping (skip_cond_incl) is not covered (tool limit). Assumed: format() yields the i-th candidate path, file_exists is a pure predicate of an unchanging file system, the include memo table is empty (first lookup). Not covered: taken-branch bookkeeping in preprocess2, #if expression evaluation (see C07), include guard detection, -idirafter ordering in main.c.",
+    functions=["preprocess.c:skip_line", "preprocess.c:is_hash", "preprocess.c:search_include_paths", "preprocess.c:search_include_next"],
     trusted_base=["CBMC 6.11"],
-    assumptions=["ghost format()/file_exists()", "empty include cache"],
+    assumptions=["ghost format()/file_exists()", "empty include cache", "equal(tok, s) holds iff the token's spelling is s (ghost stub of tokenize.c equal)"],
     explanation="bounded symbolic harnesses on real preprocess.c functions against spec scanners",
 )
 CUT = ["error", "error_tok", "error_at", "verror_at"]
@@ -13,6 +13,8 @@ def jobs(tier):
     P = dict(mode="plain", cut=CUT, havoc=["warn_tok"], timeout=300, replay=None)
     return [
         Job(name="skip_line", src="skip.c", group="C10.1 trailing tokens", defs={"FN": "0", "NT": "4"}, unwind=12, bounded="token lists of 4 tokens", sample="skip_line on every 4-token list with symbolic line-start flags", **P),
-        Job(name="skip_cond_incl", src="skip.c", group="C10.2 group skipping", defs={"FN": "1", "NT": "4"}, unwind=6, bounded="token lists of 4 tokens over the directive alphabet", sample="skip_cond_incl on every 4-token list", **P),
+        # skip_cond_incl / skip_cond_incl2 (recursive over the token list) are NOT run: symbolic execution of the recursion over a
+        # symbolic token list did not finish for lists of 4 tokens, neither inlined (path explosion after the recursive call
+        # returns a merged pointer) nor under a DFCC recursive contract (SAT out of memory at 10 GB).  See DESIGN.md I.4.
         Job(name="search_include", src="search.c", group="C10.5 include search order", unwind=8, bounded="4 include directories", sample="search_include_paths/next over every existence pattern of 4 directories", **P),
     ]
